@@ -144,15 +144,27 @@ Definition qci_alpha (c : Q) : Q :=
   let a := (1 - c) / 2 in if Qltb (1 # 2) a then 1 # 2 else a.
 Section Normal.
 Variable cdfband : Z -> Z -> Q.
+(* quantileci.go:253-256 ("fix: QuantileCI confidence can fall a few ulps short of the request when n > 30"):
+   for cdf(l, r) < confidence && (l > 0 || r < n+1) { l--; r++ } *)
+Definition widen_more (n : Z) (c : Q) (l r : Z) : bool :=
+  Qltb (cdfband l r) c && ((0 <? l)%Z || (r <? n + 1)%Z).
+Fixpoint widen (fuel : nat) (n : Z) (c : Q) (l r : Z) : Z * Z :=
+  match fuel with
+  | O => (l, r)
+  | S f => if widen_more n c l r then widen f n c (l - 1)%Z (r + 1)%Z else (l, r)
+  end.
+(* after max(l, n+1-r) steps the band covers [0, n+1] and the loop has stopped (Proofs: widen_spec) *)
+Definition widen_fuel (n l r : Z) : nat := Z.to_nat (Z.max l (n + 1 - r)).
 Definition qci_normal (n : Z) (c l1 r1 : Q) : qres :=
   (* floorInt(math.Floor(l1-0.5)+0.5)+1 and floorInt(math.Ceil(r1-0.5)+0.5)+1 *)
   let l0 := (Qfloor (l1 - (1 # 2)) + 1)%Z in
-  let r := (Qceiling (r1 - (1 # 2)) + 1)%Z in
+  let r0 := (Qceiling (r1 - (1 # 2)) + 1)%Z in
   (* quantileci.go:226-231: if r <= l { l = r - 1 } *)
-  let l := if (r <=? l0)%Z then (r - 1)%Z else l0 in
+  let la := if (r0 <=? l0)%Z then (r0 - 1)%Z else l0 in
+  let '(l, r) := widen (widen_fuel n la r0) n c la r0 in
   let conf := cdfband l r in
   let ab := cdfband l (r - 1) in
-  (* quantileci.go:257: rBiased > l && aBiased >= confidence && aBiased < res.Confidence *)
+  (* rBiased > l && aBiased >= confidence && aBiased < res.Confidence *)
   let '(conf1, amb1, r1') := if (l <? r - 1)%Z && Qle_bool c ab && Qltb ab conf then (ab, true, (r - 1)%Z) else (conf, false, r) in
   let '(conf2, amb2) := if (l <=? 0)%Z && (n + 1 <=? r1')%Z then (1, false) else (conf1, amb1) in
   clampR n l r1' conf2 amb2.
